@@ -5,7 +5,7 @@ use typst_syntax::{ast::*, SyntaxKind, SyntaxNode};
 use super::{
     doc_ext::DocExt,
     layout::flow::FlowItem,
-    util::{is_comment_node, is_only_one_and},
+    util::{ends_with_linebreak, is_comment_node, is_only_one_and},
     ArenaDoc, Context, Mode, PrettyPrinter,
 };
 use crate::ext::StrExt;
@@ -338,7 +338,8 @@ fn collect_markup_repr(markup: Markup<'_>) -> MarkupRepr {
                 repr.end_bound = Boundary::from_space(last.text());
                 last_line.nodes.pop();
             } else {
-                if is_block_elem(last) {
+                // The blank behind a line-break backslash must stay, or the backslash escapes what follows.
+                if is_block_elem(last) && !ends_with_linebreak(last) {
                     repr.end_bound = repr.end_bound.strip_space();
                 }
                 break;
